@@ -80,10 +80,32 @@ pub fn cube_checks(b: &Bdd, h: Term, tt: TT, n: usize, out: &mut Vec<(String, St
 }
 
 fn fn_case(tt: TT, n: usize, w: usize) -> Vec<(String, String)> {
+    fn_case_in(tt, n, w, 0)
+}
+
+/// `store`: 0 = plain store, 1 = store with a sender whose receiver lives, 2 = store with a sender whose receiver goes
+/// away after the variables were made (a failed send is only logged; the store must keep working)
+fn fn_case_in(tt: TT, n: usize, w: usize, store: usize) -> Vec<(String, String)> {
     let mut out = vec![];
     let built = guard(|| {
-        let mut b = Bdd::new();
+        #[cfg(feature = "frontend")]
+        let (mut b, keep) = match store {
+            0 => (Bdd::new(), None),
+            _ => {
+                let (s, r) = crossbeam_channel::unbounded();
+                (Bdd::with_sender(s), Some(r))
+            }
+        };
+        #[cfg(not(feature = "frontend"))]
+        let (mut b, keep) = (Bdd::new(), None::<()>);
+        if store > 0 {
+            for i in 0..n {
+                b.variable(Var(i));
+            }
+        }
+        let keep = if store == 2 { None } else { keep };
         let h = build_fm(&mut b, &write_fm(tt, n, w));
+        drop(keep);
         (b, h)
     });
     let (b, h) = match built {
@@ -190,6 +212,406 @@ fn impact_case(text: &str, tts: &[TT]) -> Vec<(String, String)> {
     out
 }
 
+
+// ---------------------------------------------------------------------------------------------------------------
+// diagrams with more variables than a truth table holds: the expected values are recomputed from the public node table
+
+pub const DEEP_KINDS: usize = 8;
+pub const DEEP_KIND_NAMES: [&str; DEEP_KINDS] = [
+    "conjunction",
+    "disjunction",
+    "parity",
+    "alternating nest x0&(x1|(x2&...))",
+    "implication chain",
+    "conjunction with every third atom negated",
+    "two blocks (x0&..&xk)|(xk+1&..&xn-1)",
+    "if-then-else ladder",
+];
+
+pub fn deep_fm(kind: usize, n: usize) -> Fm {
+    let a = Fm::Atom;
+    let fold_right = |op: usize, items: Vec<Fm>| -> Fm {
+        let mut it = items.into_iter().rev();
+        let mut acc = it.next().unwrap();
+        for x in it {
+            acc = Fm::bin(op, x, acc);
+        }
+        acc
+    };
+    match kind % DEEP_KINDS {
+        0 => fold_right(0, (0..n).map(a).collect()),
+        1 => fold_right(1, (0..n).map(a).collect()),
+        2 => fold_right(4, (0..n).map(a).collect()),
+        3 => {
+            let mut acc = a(n - 1);
+            for i in (0..n - 1).rev() {
+                acc = Fm::bin(i % 2, a(i), acc);
+            }
+            acc
+        }
+        4 => fold_right(0, (0..n.max(2) - 1).map(|i| Fm::bin(2, a(i), a(i + 1))).collect()),
+        5 => fold_right(0, (0..n).map(|i| if i % 3 == 2 { Fm::not(a(i)) } else { a(i) }).collect()),
+        6 => {
+            let k = (n / 2).max(1);
+            if n < 2 {
+                return a(0);
+            }
+            Fm::bin(1, fold_right(0, (0..k).map(a).collect()), fold_right(0, (k..n).map(a).collect()))
+        }
+        _ => {
+            // ite(x0, x1, ite(x2, x3, ...))
+            let mut acc = a(n - 1);
+            let mut i = n as i64 - 3;
+            while i >= 0 {
+                let (c, t) = (a(i as usize), a(i as usize + 1));
+                acc = Fm::bin(1, Fm::bin(0, c.clone(), t), Fm::bin(0, Fm::not(c), acc));
+                i -= 2;
+            }
+            acc
+        }
+    }
+}
+
+fn pow2_reduce(a: u128, b: u128) -> (u128, u128) {
+    let z = if a == 0 { b.trailing_zeros() } else if b == 0 { a.trailing_zeros() } else { a.trailing_zeros().min(b.trailing_zeros()) };
+    (a >> z, b >> z)
+}
+
+/// all queries on the given handles of a store over `nvars` variables (nvars <= 100)
+pub fn structural_query_checks(b: &Bdd, handles: &[usize], nvars: usize, with_cubes: bool, out: &mut Vec<(String, String)>) {
+    let nodes = &b.nodes;
+    let rc = recount(nodes);
+    let sup = supports(nodes);
+    let f = features();
+    // satisfying assignments over nvars variables
+    let mut sat: Vec<u128> = Vec::with_capacity(nodes.len());
+    for (i, nd) in nodes.iter().enumerate() {
+        sat.push(match i {
+            0 => 0,
+            1 => 1u128 << nvars,
+            _ => (sat[nd.lo().value()] + sat[nd.hi().value()]) / 2,
+        });
+    }
+    for &h in handles {
+        let t = Term(h);
+        for memo in [false, true] {
+            match guard(|| b.paths(t, memo)) {
+                Err(m) => out.push(("deepq:panic".into(), format!("paths({},{}) panicked: {}", h, memo, m))),
+                Ok(p) => {
+                    if p.cmodels as u128 != rc[h].0 || p.models as u128 != rc[h].1 {
+                        out.push(("deepq:paths".into(), format!("paths({}, memo={}) = ({},{}) but the diagram has ({},{}) paths to bottom/top", h, memo, p.cmodels, p.models, rc[h].0, rc[h].1)));
+                    }
+                }
+            }
+            if memo && f.adhoccounting && !f.adhoccountmodels {
+                continue;
+            }
+            let (unsat_r, sat_r) = pow2_reduce((1u128 << nvars) - sat[h], sat[h]);
+            match guard(|| b.models(t, memo)) {
+                Err(m) => out.push(("deepq:models".into(), format!("models({},{}) panicked: {}", h, memo, m))),
+                Ok(m) => {
+                    let ok = match ((m.models as u128).checked_mul(unsat_r), (m.cmodels as u128).checked_mul(sat_r)) {
+                        (Some(x), Some(y)) => x == y && (m.models > 0 || m.cmodels > 0),
+                        _ => false,
+                    };
+                    if !ok {
+                        out.push(("deepq:models".into(), format!("models({}, memo={}) = ({},{}) is not in the ratio {}:{} of counter-models to models (diagram of depth {})", h, memo, m.cmodels, m.models, unsat_r, sat_r, rc[h].2)));
+                    }
+                }
+            }
+        }
+        match guard(|| b.max_depth(t)) {
+            Err(m) => out.push(("deepq:panic".into(), format!("max_depth({}) panicked: {}", h, m))),
+            Ok(d) => {
+                if d != rc[h].2 {
+                    out.push(("deepq:depth".into(), format!("max_depth({}) = {} but the longest path has {} decisions", h, d, rc[h].2)));
+                }
+            }
+        }
+        match guard(|| b.var_dependencies(t)) {
+            Err(m) => out.push(("deepq:panic".into(), format!("var_dependencies({}) panicked: {}", h, m))),
+            Ok(s) => {
+                let mut have: Vec<usize> = s.iter().map(|v| v.value()).collect();
+                have.sort();
+                if have != sup[h] {
+                    out.push(("deepq:dependencies".into(), format!("var_dependencies({}) = {:?} but the diagram tests {:?}", h, have, sup[h])));
+                }
+            }
+        }
+        if with_cubes && h >= 2 {
+            structural_cube_checks(b, h, nvars, &rc, out);
+        }
+        if out.len() > 30 {
+            return;
+        }
+    }
+}
+
+/// does every assignment in the cube (with the goal variable at the goal value) lead from `h` to the leaf `goal`?
+fn cube_implies(b: &Bdd, h: usize, neg: &[Var], pos: &[Var], gv: usize, goal: bool) -> bool {
+    if h < 2 {
+        return (h == 1) == goal;
+    }
+    let nd = b.nodes[h];
+    let v = nd.var();
+    if pos.contains(&v) {
+        cube_implies(b, nd.hi().value(), neg, pos, gv, goal)
+    } else if neg.contains(&v) {
+        cube_implies(b, nd.lo().value(), neg, pos, gv, goal)
+    } else if v.value() == gv {
+        cube_implies(b, if goal { nd.hi().value() } else { nd.lo().value() }, neg, pos, gv, goal)
+    } else {
+        cube_implies(b, nd.lo().value(), neg, pos, gv, goal) && cube_implies(b, nd.hi().value(), neg, pos, gv, goal)
+    }
+}
+
+fn structural_cube_checks(b: &Bdd, h: usize, nvars: usize, rc: &[(u128, u128, usize)], out: &mut Vec<(String, String)>) {
+    for goal in [false, true] {
+        let paths = if goal { rc[h].1 } else { rc[h].0 };
+        if paths > 600 {
+            continue;
+        }
+        for gv in [0, nvars / 2, nvars - 1, nvars] {
+            let cubes = match guard(|| b.interpretations(Term(h), goal, Var(gv), &[], &[])) {
+                Ok(c) => c,
+                Err(m) => {
+                    out.push(("deepcubes:panic".into(), format!("interpretations({},{},{}) panicked: {}", h, goal, gv, m)));
+                    continue;
+                }
+            };
+            let nn = nvars.max(gv + 1);
+            // (counter-)models in the region where the goal variable has the goal value, over nn variables
+            let mut q: Vec<u128> = Vec::with_capacity(h + 1);
+            for (i, nd) in b.nodes.iter().enumerate().take(h + 1) {
+                q.push(match i {
+                    0 => 0,
+                    1 => 1u128 << (nn - 1),
+                    _ => {
+                        if nd.var().value() == gv {
+                            q[if goal { nd.hi().value() } else { nd.lo().value() }]
+                        } else {
+                            (q[nd.lo().value()] + q[nd.hi().value()]) / 2
+                        }
+                    }
+                });
+            }
+            let want = if goal { q[h] } else { (1u128 << (nn - 1)) - q[h] };
+            let mut covered: u128 = 0;
+            let mut bad = false;
+            for (neg, pos) in &cubes {
+                if neg.iter().any(|v| pos.contains(v)) {
+                    out.push(("deepcubes:inconsistent".into(), format!("a cube of interpretations({},{},{}) has a variable on both sides", h, goal, gv)));
+                    bad = true;
+                }
+                if (goal && neg.iter().any(|v| v.value() == gv)) || (!goal && pos.iter().any(|v| v.value() == gv)) {
+                    out.push(("deepcubes:contradict-goal".into(), format!("a cube of interpretations({},{},{}) gives the goal variable the opposite value", h, goal, gv)));
+                    bad = true;
+                }
+                if neg.iter().chain(pos.iter()).any(|v| v.value() >= nn) {
+                    out.push(("deepcubes:unknown-variable".into(), format!("a cube of interpretations({},{},{}) mentions a variable outside the diagram", h, goal, gv)));
+                    bad = true;
+                }
+                if bad {
+                    break;
+                }
+                if !cube_implies(b, h, neg, pos, gv, goal) {
+                    out.push(("deepcubes:wrong-cover".into(), format!("a cube of interpretations({},{},{}) contains an assignment that is not a {}: {:?}", h, goal, gv, if goal { "model" } else { "counter-model" }, (neg, pos))));
+                    bad = true;
+                    break;
+                }
+                let mut vars: Vec<usize> = neg.iter().chain(pos.iter()).map(|v| v.value()).collect();
+                vars.push(gv);
+                vars.sort();
+                vars.dedup();
+                covered += 1u128 << (nn - vars.len());
+            }
+            if bad {
+                continue;
+            }
+            for i in 0..cubes.len() {
+                for j in 0..i {
+                    let (a, c) = (&cubes[i], &cubes[j]);
+                    let clash = a.0.iter().any(|v| c.1.contains(v)) || a.1.iter().any(|v| c.0.contains(v));
+                    if !clash {
+                        out.push(("deepcubes:overlap".into(), format!("cubes {:?} and {:?} of interpretations({},{},{}) overlap", c, a, h, goal, gv)));
+                        bad = true;
+                        break;
+                    }
+                }
+                if bad {
+                    break;
+                }
+            }
+            if !bad && covered != want {
+                out.push(("deepcubes:wrong-cover".into(), format!("the {} cubes of interpretations({},{},{}) cover {} assignments where the goal variable has the goal value, there are {} {}", cubes.len(), h, goal, gv, covered, want, if goal { "models" } else { "counter-models" })));
+            }
+        }
+    }
+}
+
+pub const STORE_KINDS: [&str; 3] = ["plain store", "store with a sender whose receiver lives", "store with a sender whose receiver went away after the variables were made"];
+
+/// one deep formula, built in one of three kinds of store, every node queried
+pub fn deep_fn_case(kind: usize, n: usize, store: usize) -> Vec<(String, String)> {
+    let mut out = vec![];
+    let fm = deep_fm(kind, n);
+    let built = guard(|| {
+        #[cfg(feature = "frontend")]
+        let (mut b, keep) = match store {
+            0 => (Bdd::new(), None),
+            _ => {
+                let (s, r) = crossbeam_channel::unbounded();
+                (Bdd::with_sender(s), Some(r))
+            }
+        };
+        #[cfg(not(feature = "frontend"))]
+        let (mut b, keep) = (Bdd::new(), None::<()>);
+        for i in 0..n {
+            b.variable(Var(i));
+        }
+        let keep = if store == 2 { None } else { keep };
+        let h = build_fm(&mut b, &fm);
+        drop(keep);
+        (b, h)
+    });
+    let (b, h) = match built {
+        Ok(x) => x,
+        Err(m) => return vec![("build:panic".into(), m)],
+    };
+    // the diagram under query is the function it is meant to be (exact comparison with the reference package)
+    let mut rb = crate::refbdd::RefBdd::new();
+    let r = rb.compile(&fm, &|i| i);
+    if let Err(e) = crate::refbdd::same_function(&b.nodes, h, &rb, r) {
+        out.push(("build:wrong-function".into(), e));
+        return out;
+    }
+    let handles: Vec<usize> = (0..b.nodes.len()).collect();
+    structural_query_checks(&b, &handles, n, true, &mut out);
+    out
+}
+
+/// an ADF with wide acceptance conditions: formulacounts / facet_count of the object and the CLI's --counter output
+pub fn deep_adf(n: usize) -> crate::large::LargeAdf {
+    let labels: Vec<String> = (0..n).map(|i| format!("w{:02}", i)).collect();
+    let mut conds = vec![];
+    for i in 0..n {
+        conds.push(match i {
+            0 => deep_fm(0, n),
+            1 => deep_fm(1, n),
+            2 => deep_fm(3, n),
+            3 => deep_fm(2, n.min(16)),
+            4 => deep_fm(7, n),
+            5 => deep_fm(6, n),
+            _ => match i % 3 {
+                0 => Fm::Atom(i - 1),
+                1 => Fm::not(Fm::Atom(i - 2)),
+                _ => Fm::bin(0, Fm::Atom(i - 1), Fm::Atom((i + 1) % n)),
+            },
+        });
+    }
+    crate::large::LargeAdf { written: labels.clone(), labels, conds, shape: "wide conditions" }
+}
+
+fn count_ok(models: u128, cmodels: u128, sat: u128, nvars: usize) -> bool {
+    let (unsat_r, sat_r) = pow2_reduce((1u128 << nvars) - sat, sat);
+    match (models.checked_mul(unsat_r), cmodels.checked_mul(sat_r)) {
+        (Some(x), Some(y)) => x == y && models + cmodels > 0,
+        _ => false,
+    }
+}
+
+pub fn deep_adf_case(n: usize, cli: Option<&str>) -> Vec<(String, String)> {
+    let mut out = vec![];
+    let l = deep_adf(n);
+    let text = l.text(None, ("\n", "", ""));
+    let parser = AdfParser::default();
+    if parser.parse()(&text).is_err() {
+        return vec![("parse".into(), "well-formed input rejected".into())];
+    }
+    let adf = match guard(|| Adf::from_parser(&parser)) {
+        Ok(a) => a,
+        Err(m) => return vec![("adf:panic".into(), m)],
+    };
+    let nodes = &adf.bdd.nodes;
+    let mut sat: Vec<u128> = Vec::with_capacity(nodes.len());
+    for (i, nd) in nodes.iter().enumerate() {
+        sat.push(match i {
+            0 => 0,
+            1 => 1u128 << n,
+            _ => (sat[nd.lo().value()] + sat[nd.hi().value()]) / 2,
+        });
+    }
+    // the acceptance conditions are the functions they are meant to be
+    let mut rb = crate::refbdd::RefBdd::new();
+    for (i, c) in l.conds.iter().enumerate() {
+        let r = rb.compile(c, &|x| x);
+        if let Err(e) = crate::refbdd::same_function(nodes, adf.ac[i], &rb, r) {
+            return vec![("adf:wrong-function".into(), format!("acceptance condition {}: {}", i, e))];
+        }
+    }
+    match guard(|| adf.formulacounts(false)) {
+        Ok(c) => {
+            for (s, m) in c.iter().enumerate() {
+                if !count_ok(m.models as u128, m.cmodels as u128, sat[adf.ac[s].value()], n) {
+                    out.push(("deepadf:formulacounts".into(), format!("formulacounts(false)[{}] = {:?} for a condition with {} models of 2^{}", s, m, sat[adf.ac[s].value()], n)));
+                }
+            }
+            if c.len() != n {
+                out.push(("deepadf:formulacounts".into(), "wrong number of counts".into()));
+            }
+        }
+        Err(m) => out.push(("deepadf:panic".into(), format!("formulacounts(false): {}", m))),
+    }
+    let ac = adf.ac.clone();
+    match guard(|| adf.facet_count(&ac)) {
+        Ok(c) => {
+            for (s, (m, _)) in c.iter().enumerate() {
+                if !count_ok(m.models as u128, m.cmodels as u128, sat[ac[s].value()], n) {
+                    out.push(("deepadf:facet_count".into(), format!("facet_count(ac)[{}] model counts {:?} for a condition with {} models of 2^{}", s, m, sat[ac[s].value()], n)));
+                }
+            }
+        }
+        Err(m) => out.push(("deepadf:panic".into(), format!("facet_count: {}", m))),
+    }
+    let handles: Vec<usize> = ac.iter().map(|t| t.value()).collect();
+    structural_query_checks(&adf.bdd, &handles, n, false, &mut out);
+    if let Some(cli) = cli {
+        let dir = format!("{}/.build/tmp-c13-{}", VERIF_DIR, std::process::id());
+        let _ = std::fs::create_dir_all(&dir);
+        let path = format!("{}/deep_{}.adf", dir, n);
+        if std::fs::write(&path, &text).is_err() {
+            machinery_error("cannot write CLI input file");
+        }
+        for mode in ["naive", "hybrid"] {
+            let o = std::process::Command::new(cli).args(["--lib", mode, "--counter", "nai", "-q", &path]).output();
+            let Ok(o) = o else { machinery_error("cannot run the CLI binary") };
+            let so = String::from_utf8_lossy(&o.stdout).to_string();
+            if !o.status.success() {
+                out.push((format!("cli:{}:exit", mode), format!("--counter nai exits with {:?}", o.status.code())));
+                continue;
+            }
+            let mut counts = vec![];
+            for part in so.split("ModelCounts").skip(1) {
+                let nums: Vec<u128> = part.split(|c: char| !c.is_ascii_digit()).filter(|x| !x.is_empty()).take(2).filter_map(|x| x.parse().ok()).collect();
+                if nums.len() == 2 {
+                    counts.push((nums[0], nums[1]));
+                }
+            }
+            if counts.len() != n {
+                out.push((format!("cli:{}:format", mode), format!("expected {} counts, got {}", n, counts.len())));
+                continue;
+            }
+            for (s, (cm, m)) in counts.iter().enumerate() {
+                if !count_ok(*m, *cm, sat[ac[s].value()], n) {
+                    out.push((format!("cli:{}:counts", mode), format!("statement {} printed cmodels {} models {} for a condition with {} models of 2^{}", s, cm, m, sat[ac[s].value()], n)));
+                }
+            }
+        }
+        let _ = std::fs::remove_file(&path);
+    }
+    out
+}
+
 /// `adf-bdd --counter nai` for one ADF in naive and hybrid mode
 fn cli_counter_case(cli: &str, dir: &str, idx: u64, text: &str, tts: &[TT]) -> Vec<(String, String)> {
     let n = tts.len();
@@ -237,7 +659,7 @@ fn cli_counter_case(cli: &str, dir: &str, idx: u64, text: &str, tts: &[TT]) -> V
 
 pub fn run_c13(run: &Run) {
     writers_selfcheck();
-    run.set_rule("every Boolean function of <= 4 variables (all 65536 + the smaller ones, two writers) is built and every node of the resulting store is queried: paths / models (naive, memoised where documented) / max_depth / var_dependencies against independent recounts from the public node table, interpretations() cubes for both goals and every goal variable incl. one outside the diagram (disjoint, consistent, exact cover); the store exploration of C06 with the same queries in every state; impact measures, formulacounts and facet_count on the term lists of every ADF of A(2) and F(3,2); more_models/minimum on all pairs in [0,16]^2; adf-bdd --counter nai on A(2). Non-trivial: functions depending on >= 2 variables.");
+    run.set_rule("every Boolean function of <= 4 variables (all 65536 + the smaller ones, two writers) is built and every node of the resulting store is queried: paths / models (naive, memoised where documented) / max_depth / var_dependencies against independent recounts from the public node table, interpretations() cubes for both goals and every goal variable incl. one outside the diagram (disjoint, consistent, exact cover); the store exploration of C06 with the same queries in every state; impact measures, formulacounts and facet_count on the term lists of every ADF of A(2) and F(3,2); more_models/minimum on all pairs in [0,16]^2; adf-bdd --counter nai on A(2); the same functions in stores that stream their nodes (receiver alive / gone); deep diagrams (8 formula shapes, up to 64 variables, 3 kinds of store) and ADFs with wide conditions with the expected values recomputed from the node table. Non-trivial: functions depending on >= 2 variables.");
     run.assume("memoised model counts are exempt exactly under the documented feature combination (adhoccounting without adhoccountmodels); cubes are checked on non-constant diagrams only (pinned by the repository's own unit test)");
     // more_models / minimum
     let mut pairs = 0u64;
@@ -303,6 +725,98 @@ pub fn run_c13(run: &Run) {
             run.add_counts(st.0, st.0 * 30, st.0, st.1);
         }
     }
+    if cfg!(feature = "frontend") {
+        let plan: Vec<usize> = if run.quick() { vec![1, 2, 3] } else { vec![1, 2, 3, 4] };
+        for n in plan {
+            let total = (full(n) as u64 + 1) * 2;
+            let res = run.par_family(
+                &format!("all functions of {} variables in stores that stream their nodes (receiver alive / gone after the variables), every node queried", n),
+                total,
+                || 0u64,
+                |st, k| {
+                    let tt = (k / 2) as TT;
+                    let store = 1 + (k % 2) as usize;
+                    *st += 1;
+                    for (kind, msg) in fn_case_in(tt, n, 5, store) {
+                        run.violation(&kind, format!("{} (function {:#x} over {} variables, {})", msg, tt, n, STORE_KINDS[store]), json!({"type": "function", "tt": tt, "vars": n, "writer": 5, "store": store}));
+                    }
+                },
+                &|k| json!({"type": "function", "tt": k / 2, "vars": n, "writer": 5, "store": 1 + k % 2}),
+            );
+            for st in res {
+                run.add_counts(st, st * 20, st, 0);
+            }
+        }
+    }
+    // deep diagrams (up to 64 levels: all counts fit the library's machine words)
+    let ns: Vec<usize> = if run.quick() { vec![6, 13, 20, 21, 22, 25, 32, 33, 47, 63, 64] } else { (2..=64).collect() };
+    let stores: Vec<usize> = if cfg!(feature = "frontend") { vec![0, 1, 2] } else { vec![0] };
+    let mut items: Vec<(usize, usize, usize)> = vec![];
+    for &n in &ns {
+        for kind in 0..DEEP_KINDS {
+            if kind == 2 && n > if run.quick() { 22 } else { 24 } {
+                continue;
+            }
+            for &st in &stores {
+                items.push((kind, n, st));
+            }
+        }
+    }
+    let res = run.par_family(
+        &format!("deep diagrams: {} formula shapes x {} sizes up to 64 variables x {} kinds of store, every node queried (expected values recomputed from the node table, the function checked against the reference package)", DEEP_KINDS, ns.len(), stores.len()),
+        items.len() as u64,
+        || 0u64,
+        |st, i| {
+            let (kind, n, store) = items[i as usize];
+            *st += 1;
+            run.heartbeat();
+            for (k, msg) in deep_fn_case(kind, n, store) {
+                run.violation(&k, format!("{} ({} of {} variables, {})", msg, DEEP_KIND_NAMES[kind], n, STORE_KINDS[store]), json!({"type": "deep-fn", "kind": kind, "vars": n, "store": store, "levels_65_or_more": false}));
+            }
+        },
+        &|i| json!({"type": "deep-fn", "kind": items[i as usize].0, "vars": items[i as usize].1, "store": items[i as usize].2, "levels_65_or_more": false}),
+    );
+    for st in res {
+        run.add_counts(st, st * 200, st, st);
+    }
+    // 65 and more levels: the model counts no longer fit a machine word (recorded finding K3); everything else must hold
+    let beyond: Vec<(usize, usize)> = [65usize, 66, 70, 100].iter().flat_map(|n| [0usize, 1, 3, 5].map(|k| (k, *n))).collect();
+    let res = run.par_family(
+        "deep diagrams of 65..100 levels (conjunction, disjunction, alternating nest, mixed literals), plain store",
+        beyond.len() as u64,
+        || 0u64,
+        |st, i| {
+            let (kind, n) = beyond[i as usize];
+            *st += 1;
+            for (k, msg) in deep_fn_case(kind, n, 0) {
+                run.violation(&k, format!("{} ({} of {} variables)", msg, DEEP_KIND_NAMES[kind], n), json!({"type": "deep-fn", "kind": kind, "vars": n, "store": 0, "levels_65_or_more": true}));
+            }
+        },
+        &|i| json!({"type": "deep-fn", "kind": beyond[i as usize].0, "vars": beyond[i as usize].1, "store": 0, "levels_65_or_more": true}),
+    );
+    for st in res {
+        run.add_counts(st, st * 200, st, st);
+    }
+    // ADFs with wide conditions
+    let cli = std::env::var("ADF_BDD_CLI").ok();
+    let sizes: Vec<usize> = if run.quick() { vec![24, 32] } else { vec![8, 16, 24, 32, 40, 48, 60] };
+    let res = run.par_family(
+        "ADFs with wide acceptance conditions: formulacounts(false), facet_count, queries on the conditions, adf-bdd --counter nai (naive and hybrid)",
+        sizes.len() as u64,
+        || 0u64,
+        |st, i| {
+            let n = sizes[i as usize];
+            *st += 1;
+            run.heartbeat();
+            for (k, msg) in deep_adf_case(n, cli.as_deref()) {
+                run.violation(&k, format!("{} (ADF with wide conditions over {} statements)", msg, n), json!({"type": "deep-adf", "statements": n}));
+            }
+        },
+        &|i| json!({"type": "deep-adf", "statements": sizes[i as usize]}),
+    );
+    for st in res {
+        run.add_counts(st, st * 100, st, st);
+    }
     run.sample(json!({"type": "function", "tt": 0x6996, "vars": 4, "writer": 0}));
     // exploration with queries in every state
     let flags = Flags { canonical: false, functions: false, memo: false, queries: true };
@@ -366,7 +880,9 @@ pub fn run_c13(run: &Run) {
 
 pub fn replay(c: &Value) -> Vec<(String, String)> {
     match c["type"].as_str().unwrap_or("") {
-        "function" => fn_case(c["tt"].as_u64().unwrap_or(0) as TT, c["vars"].as_u64().unwrap_or(3) as usize, c["writer"].as_u64().unwrap_or(0) as usize),
+        "function" => fn_case_in(c["tt"].as_u64().unwrap_or(0) as TT, c["vars"].as_u64().unwrap_or(3) as usize, c["writer"].as_u64().unwrap_or(0) as usize, c["store"].as_u64().unwrap_or(0) as usize),
+        "deep-fn" => deep_fn_case(c["kind"].as_u64().unwrap_or(0) as usize, c["vars"].as_u64().unwrap_or(20) as usize, c["store"].as_u64().unwrap_or(0) as usize),
+        "deep-adf" => deep_adf_case(c["statements"].as_u64().unwrap_or(24) as usize, std::env::var("ADF_BDD_CLI").ok().as_deref()),
         "pair" => {
             let (cm, m) = (c["cmodels"].as_u64().unwrap_or(0) as usize, c["models"].as_u64().unwrap_or(0) as usize);
             let mc: ModelCounts = (cm, m).into();
